@@ -12,6 +12,7 @@ import (
 	"fmt"
 	"io"
 	"strings"
+	"time"
 
 	"github.com/johnkerl/miller/v6/pkg/cli"
 	"github.com/johnkerl/miller/v6/pkg/climain"
@@ -151,6 +152,8 @@ func fromMaps(ms []*mlrval.Mlrmap) stream {
 func writeMaps(o *cli.TOptions, ms []*mlrval.Mlrmap) (text string, err error, crash any) {
 	wo := o.WriterOptions // writers may keep a pointer; never share it between runs
 	var buf bytes.Buffer
+	t0 := time.Now()
+	defer func() { writeNanos += int64(time.Since(t0)); writeCalls++ }()
 	crash, _ = vf.Try(func() {
 		var w output.IRecordWriter
 		w, err = output.Create(&wo)
@@ -288,7 +291,15 @@ func readChunks(o *cli.TOptions, chunks []string) (res readResult) {
 	}
 }
 
-func readText(o *cli.TOptions, text string) readResult { return readChunks(o, []string{text}) }
+var readNanos, readCalls, writeNanos, writeCalls int64
+
+func readText(o *cli.TOptions, text string) readResult {
+	t0 := time.Now()
+	r := readChunks(o, []string{text})
+	readNanos += int64(time.Since(t0))
+	readCalls++
+	return r
+}
 
 func isExit(p any) bool {
 	_, ok := p.(verifrt.ExitPanic)
